@@ -26,7 +26,8 @@ CLAIMED = {
             "the retained list shrinks only in the ack removal (called only from the four ack arms with that packet's "
             "identifier) and in clear() (only via the session reset on the session_present==false edge); send progress "
             "is re-armed only on (re)connect or by the latch; flush completion marks the entry of the same kind and id "
-            "Sent; no order-breaking queue operation; re-arm is paired with the DUP patch. These are inductive "
+            "Sent; no order-breaking queue operation; re-arm is paired with the DUP patch and resets every retained entry "
+            "to Write{0} unconditionally. These are inductive "
             "who-may-mutate facts that hold for histories of any length and every crash point because they quantify "
             "over all call sites and paths; retransmission byte-identity and counting are not computed.",
             "DESIGN.md §4 C02"),
